@@ -304,7 +304,7 @@ impl Scenario for UrScenario {
         }
         let tasks = r.range(1, 5);
         let owner: Vec<usize> = (0..n).map(|_| r.below(tasks)).collect();
-        let modes: Vec<usize> = (0..tasks).map(|_| r.below(2)).collect();
+        let modes: Vec<usize> = (0..tasks).map(|_| r.below(3)).collect(); // 2 = sequential, each receive polled once with a throw-away waker, then awaited
         let ask_eos = r.chance(1, 2);
         let est = 40 + (n as u64) * 10 + cuts.len() as u64 * 3;
         json!({
@@ -393,6 +393,16 @@ where
                     if mode == 0 {
                         for i in mine {
                             let r = recv.recv::<Raw<N>, usize>(i).await;
+                            log.lock().unwrap().got.push((i, r.map(|m| m.bytes().to_vec()).map_err(|e| e.to_string())));
+                        }
+                    } else if mode == 2 {
+                        for i in mine {
+                            use futures::FutureExt;
+                            let mut f = std::pin::pin!(recv.recv::<Raw<N>, usize>(i));
+                            let r = match (&mut f).now_or_never() {
+                                Some(r) => r,
+                                None => f.await,
+                            };
                             log.lock().unwrap().got.push((i, r.map(|m| m.bytes().to_vec()).map_err(|e| e.to_string())));
                         }
                     } else {
